@@ -47,6 +47,20 @@ func init() {
 					}
 				case *types.Chan:
 					return holds(x.Elem(), depth+1, seen)
+				case *types.Interface:
+					// a storage interface (lisp.Map: Get hands out the values it holds): a
+					// package-level map backing is shared lisp storage just as an LVal is
+					for i := 0; i < x.NumMethods(); i++ {
+						sig, _ := x.Method(i).Type().(*types.Signature)
+						if sig == nil {
+							continue
+						}
+						for k := 0; k < sig.Results().Len(); k++ {
+							if holds(sig.Results().At(k).Type(), depth+1, seen) {
+								return true
+							}
+						}
+					}
 				}
 				return false
 			}
